@@ -42,12 +42,13 @@ func (fr *Frame) call(in ssa.Instruction, c *ssa.CallCommon, st *State, pc Term)
 			for i, a := range fr.lastArgs {
 				vars[fmt.Sprintf("arg%d", i)] = TV{a, fr.lastArgTypes[i]}
 			}
-			g, err := env.with(vars).evalBool(cs.Clause.E)
-			if err != nil {
+			if _, err := env.with(vars).evalBool(cs.Clause.E); err != nil {
 				fr.vc.specError(cs.Clause, err)
 				continue
 			}
-			fr.vc.assume(pc, g)
+			// assumed like a callee postcondition: universally quantified
+			// conjuncts are recorded for instantiation
+			fr.vc.assumeClause(pc, env.with(vars), cs.Clause)
 			fr.vc.assumes["assumed after call "+cs.Callee+" in "+fr.vc.fname+": "+cs.Clause.Src] = true
 		}
 	}
@@ -598,6 +599,12 @@ func (fr *Frame) modularCall(fc *FuncContract, callee *ssa.Function, c *ssa.Call
 		post.vars["result"] = TV{res[0], sig.Results().At(0).Type()}
 	}
 	for _, e := range fc.Ensures {
+		if !isClosure && mentionsCalleeLocal(e.E, callee, post) {
+			// a postcondition that talks about a local variable of the callee
+			// is internal: it is proved at the callee's returns (where the
+			// local is live) and says nothing a caller could use
+			continue
+		}
 		vc.assumeClause(pc, post, e)
 	}
 	for _, fname := range fc.Fresh {
@@ -1179,4 +1186,81 @@ func (fr *Frame) inLoop(b *ssa.BasicBlock) bool {
 		}
 	}
 	return false
+}
+
+// mentionsCalleeLocal reports whether a contract expression uses, as a free
+// identifier that the call environment does not bind, the name of a local
+// variable of the callee.
+func mentionsCalleeLocal(x Expr, callee *ssa.Function, env *Env) bool {
+	if callee == nil {
+		return false
+	}
+	locals := map[string]bool{}
+	for _, a := range callee.Locals {
+		if a.Comment != "" {
+			locals[a.Comment] = true
+		}
+	}
+	for _, p := range callee.Params {
+		delete(locals, p.Name())
+	}
+	if len(locals) == 0 {
+		return false
+	}
+	found := false
+	var walk func(x Expr, bound map[string]bool)
+	walk = func(x Expr, bound map[string]bool) {
+		if found || x == nil {
+			return
+		}
+		switch x := x.(type) {
+		case *EIdent:
+			if _, ok := env.vars[x.Name]; !ok && !bound[x.Name] && locals[x.Name] {
+				found = true
+			}
+		case *EUn:
+			walk(x.X, bound)
+		case *EBin:
+			walk(x.X, bound)
+			walk(x.Y, bound)
+		case *EField:
+			walk(x.X, bound)
+		case *EIndex:
+			walk(x.X, bound)
+			walk(x.I, bound)
+		case *ESlice:
+			walk(x.X, bound)
+			if x.Lo != nil {
+				walk(x.Lo, bound)
+			}
+			if x.Hi != nil {
+				walk(x.Hi, bound)
+			}
+		case *ECall:
+			for _, a := range x.Args {
+				walk(a, bound)
+			}
+		case *EMethod:
+			walk(x.X, bound)
+			for _, a := range x.Args {
+				walk(a, bound)
+			}
+		case *EQuant:
+			nb := map[string]bool{x.Var: true}
+			for k := range bound {
+				nb[k] = true
+			}
+			if x.Lo != nil {
+				walk(x.Lo, nb)
+				walk(x.Hi, nb)
+			}
+			walk(x.Body, nb)
+		case *ECond:
+			walk(x.C, bound)
+			walk(x.A, bound)
+			walk(x.B, bound)
+		}
+	}
+	walk(x, map[string]bool{})
+	return found
 }
